@@ -112,8 +112,14 @@ def snapshot(root):
     for dp, dns, fns in os.walk(root):
         rel = os.path.relpath(dp, root)
         snap[rel + "/"] = ("dir", 0, "")
+        for dn in dns:
+            if os.path.islink(os.path.join(dp, dn)):
+                snap[os.path.normpath(os.path.join(rel, dn))] = ("link", 0, os.readlink(os.path.join(dp, dn)))
         for fn in fns:
             p = os.path.join(dp, fn)
+            if os.path.islink(p):
+                snap[os.path.normpath(os.path.join(rel, fn))] = ("link", 0, os.readlink(p))
+                continue
             with open(p, "rb") as f:
                 b = f.read()
             snap[os.path.normpath(os.path.join(rel, fn))] = ("file", len(b), hashlib.sha1(b).hexdigest())
